@@ -1232,6 +1232,10 @@ func (x *Exec) atLoopHeader(st *State, h *ssa.BasicBlock, ord int) bool {
 		}
 		ctx := x.ctxFor(st, x.entry, nil)
 		ctx.loopHeader = h
+		ctx.loopEntrySt = st.loopEntry[h]
+		if ctx.loopEntrySt == nil {
+			ctx.loopEntrySt = st // the loop is being entered: its entry state is the current one
+		}
 		for _, c := range lc.Invariants {
 			t := x.evalBool(ctx, c)
 			x.oblige(st, kind, fmt.Sprintf("loop%d.%s", ord, c.Label), t, c.Text)
@@ -1246,6 +1250,10 @@ func (x *Exec) atLoopHeader(st *State, h *ssa.BasicBlock, ord int) bool {
 		return true
 	}
 	check("inv_entry")
+	if st.loopEntry == nil {
+		st.loopEntry = map[*ssa.BasicBlock]*State{}
+	}
+	st.loopEntry[h] = st.clone()
 	// havoc everything the loop may modify
 	x.havocLoop(st, h)
 	st.inLoop[h] = true
@@ -1256,6 +1264,7 @@ func (x *Exec) atLoopHeader(st *State, h *ssa.BasicBlock, ord int) bool {
 	if lc != nil {
 		ctx := x.ctxFor(st, x.entry, nil)
 		ctx.loopHeader = h
+		ctx.loopEntrySt = st.loopEntry[h]
 		for _, c := range lc.Invariants {
 			st.assume(x.evalBool(ctx, c), fmt.Sprintf("invariant loop%d [%s]", ord, c.Label))
 		}
